@@ -124,6 +124,8 @@ structure Layout (F : FTy) (p eb : Nat) : Prop where
   maxMant : F.C.maxMantissaFastPath = ((2 ^ p : Nat) : Int)
   hpb : p + 1 ≤ 2 ^ (eb - 1) - 1
   hL127 : 127 ≤ 2 ^ (eb - 1) - 1 + (p - 1) - 1
+  hL1074 : 2 ^ (eb - 1) - 1 + (p - 1) - 1 ≤ 1074
+  hb1024 : 2 ^ (eb - 1) ≤ 1024
 
 theorem layout_f64 : Layout FTy.f64 53 11 := by
   constructor <;> decide
